@@ -5,7 +5,7 @@
    refinement `flatten = inst` is NOT proved (see C07_refines_partial) and is false under shadowing
    (C07_refuted_shadowing). *)
 From Coq Require Import List ZArith Bool PArith.
-From PV Require Import Lib.ClassTree Model.C07_flatten Proofs.C07_flatten.
+From PV Require Import Lib.ClassTree Lib.Inst Model.C07_flatten Proofs.C07_flatten Proofs.C07_refine.
 Import ListNotations.
 
 (* C07a: a flat name is the instance path: composition prefix ++ [name] is injective, and the
@@ -50,11 +50,49 @@ Theorem C07d_rename (cont : list path) (prefix : path) :
 Proof. exact (conj (rename_ref_iff cont prefix) (rename_ok cont prefix)). Qed.
 Print Assumptions C07d_rename.
 
-(* PARTIAL.  DESIGN's C07_refines (flatten_model = inst as ordered variables + multiset of equations)
-   is not proved.  Proved: for an extends-free class flatten_extends returns exactly the class's own
-   nested classes, symbols, equations and the incoming modification environment (any fuel > 0).
-   Missing: the induction over build / flatten_symbols relating the instance tree to a declarative
-   `inst`, and the extends case under no_shadowing. *)
+(* REFINEMENT, stage 1.  Lib/Inst.v `inst` is the specification written from the property text (one
+   variable per leaf named by its instance path, types looked up in the declaring class, prefix rule,
+   equations of every instance with references renamed to the leaf they denote, outermost modifier wins).
+   For every PLAIN library — no extends clauses, no modifications; any nesting depth, repeated classes,
+   nested class definitions (looked up through enclosing scopes), scalar arrays, all prefixes, symbol
+   names duplicate free — whenever the model of pymoca's flatten returns a flat class, the specification
+   returns the SAME ordered variables and the SAME list of equations (hence the same multiset).  `clean`:
+   no attribute and no pending modification on any flat symbol, so `var_of` forgets nothing. *)
+Theorem C07_refines_flat (root : list cdef) (top : path) (r : list fsym * list eqn) :
+  plain_lib root -> flatten root top = Ok r ->
+  Forall clean (fst r) /\ PV.Lib.Inst.inst root top = Some (map var_of (fst r), snd r).
+Proof. exact (refines_flat root top r). Qed.
+Print Assumptions C07_refines_flat.
+
+(* the hypotheses are satisfiable by a non-trivial library: model A input Real x; output Real y[2]; equation
+   y[1] = x; end A;  model M  model N A c; end N;  A a; N b; input Real u;  equation a.x = u; b.c.x = a.y[1]; end M; *)
+Definition plain_ex : list cdef :=
+  [CDef 40 kModel [] [] [mkSym 41 [iReal] [pInput] [] []; mkSym 42 [iReal] [pOutput] [2%Z] []]
+        [(ERef [42] [1%Z], ERef [41] [])];
+   CDef 43 kModel [CDef 44 kModel [] [] [mkSym 45 [40] [] [] []] []] []
+        [mkSym 46 [40] [] [] []; mkSym 47 [44] [] [] []; mkSym 48 [iReal] [pInput] [] []]
+        [(ERef [46; 41] [], ERef [48] []); (ERef [47; 45; 41] [], ERef [46; 42] [1%Z])]]%positive.
+Example C07_refines_flat_example :
+  plain_lib plain_ex /\
+  exists r, flatten plain_ex [43%positive] = Ok r /\
+    map f_name (fst r) = [[46; 41]; [46; 42]; [47; 45; 41]; [47; 45; 42]; [48]]%positive /\ length (snd r) = 4%nat.
+Proof.
+  split.
+  - repeat (constructor; try (unfold kModel, kBuiltin, kType; discriminate); try (simpl; intuition discriminate)).
+  - eexists. split; [vm_compute; reflexivity | split; reflexivity].
+Qed.
+Print Assumptions C07_refines_flat_example.
+
+(* PARTIAL (stages 2 and 3 of the refinement are NOT proved).  Proved here: the extends-free step of
+   flatten_extends.  Missing for `flatten = inst` with extends under no_shadowing: (i) flatten_extends_elems —
+   for acyclic extends flatten_extends returns the symbols / equations / nested classes of the bases in
+   the order inst_go visits them (od_update vs v_update); (ii) lookup_no_shadow — under no_shadowing
+   lookup (me_of deriving ...) t = lookup (class_scope declaring ...) t for every inherited symbol type t;
+   (iii) alias leaves (`type T = Real`): collapses/extends_builtin vs elem_type.  Missing for modifications
+   (C08_refines): apply_args_leaf — the list build puts on a leaf, applied per scope by modify_symbol,
+   equals leaf_attrs (outer ++ decl ++ type-definition entries) after resolution, under the hypotheses
+   that exclude the recorded defect shapes.  Both comparisons are made on every run instead (check_case,
+   check_spec). *)
 Theorem C07_refines_partial (root : list cdef) (f : nat) (c : cdef) (lex : path) (menv : list marg) :
   c_exts c = [] -> c_kind c <> kBuiltin ->
   flatten_extends root (S f) c lex menv =
